@@ -16,7 +16,7 @@ import (
 // connecting, reads response 1, and sends the rest of request 2 another 0.6 T later: inside the fresh deadline for request 2,
 // but past the one armed for request 1. Request 2 must be answered.
 func c15Partial(r *Result) {
-	const T = 250 * time.Millisecond
+	const T = 400 * time.Millisecond
 	for _, prefix := range []int{1, 3, 8, 16, 40} {
 		key := fmt.Sprintf("pipelined prefix of %d bytes of the next request delivered with the previous one (ReadTimeout %v)", prefix, T)
 		r.eval(key, true)
